@@ -123,7 +123,7 @@ class Emitter:
             if ln.startswith("//@include "):
                 self._process_file(os.path.join(self.verif, ln.split(None, 1)[1].strip()))
                 i += 1; continue
-            if ln.startswith("//@fn ") or ln.startswith("//@struct "):
+            if ln.startswith("//@fn ") or ln.startswith("//@struct ") or ln.startswith("//@enum "):
                 j = i + 1
                 while not lines[j].startswith("//@end"):
                     j += 1
@@ -175,7 +175,7 @@ class Emitter:
         return opts
 
     def _emit_item(self, head, optlines):
-        kind = "fn" if head.startswith("//@fn ") else "struct"
+        kind = "fn" if head.startswith("//@fn ") else ("enum" if head.startswith("//@enum ") else "struct")
         spec = head.split(None, 1)[1]
         parts = [s.strip() for s in spec.split("|")]
         rel, path = parts[0], parts[1:]
@@ -185,7 +185,9 @@ class Emitter:
         except LookupError as e:
             raise EmitError("lost anchor: %s" % e)
         opts = self._parse_opts(optlines)
-        if kind == "struct":
+        if kind == "enum":
+            self._emit_enum(F, it, opts)
+        elif kind == "struct":
             self._emit_struct(F, it, opts)
         else:
             self._emit_fn(F, it, path, opts)
@@ -232,6 +234,26 @@ class Emitter:
         self._out("\n" + toks[close].text)
         if toks[close].text == ")":
             self._out(";")
+        self._out("\n")
+        self.struct_records.append({"name": it.name, "file": F.path,
+                                    "line": F.src.count("\n", 0, toks[it.kw].start) + 1})
+
+    def _emit_enum(self, F, it, opts):
+        """enum verbatim, attributes (derives, per-variant display attributes) dropped (D1)"""
+        toks = F.toks
+        for a in opts["attr"]:
+            self._out(a + "\n")
+        self._out("pub ")
+        pos = toks[it.kw].start
+        k = it.kw
+        while k <= it.end:
+            if toks[k].text == "#" and toks[k + 1].text == "[":
+                c = F.match[k + 1]
+                self._out(F.clean[pos:toks[k].start], F.path, pos)
+                pos = toks[c].end
+                k = c + 1; continue
+            k += 1
+        self._out(F.clean[pos:toks[it.end].end], F.path, pos)
         self._out("\n")
         self.struct_records.append({"name": it.name, "file": F.path,
                                     "line": F.src.count("\n", 0, toks[it.kw].start) + 1})
